@@ -158,10 +158,19 @@ class Gen:
     def union(self, d):
         r = self.rng
         terms = []
-        for _ in range(r.randint(2, 3)):
-            t = ident(self.tname()) if self.chance(0.6) else self.typ(0, 'union')
-            if self.chance(0.4): t = {'Operation': {'pos': 0, 'op': 'Tiled', 'x': t, 'y': None}}
+        n = r.randint(2, 4)
+        for i in range(n):
+            k = r.choice(['name', 'name', 'name', 'lit', 'pointer', 'paren', 'qualified'])
+            if k == 'name': t = ident(self.tname())
+            elif k == 'lit': t = self.pick([{'TypeSlice': {'pos': [0, 0], 'typ': ident('byte')}}, {'TypeMap': {'pos': [0, 0], 'key': ident('string'), 'val': ident('int')}},
+                                            {'TypeChannel': {'pos': [0, 0], 'dir': None, 'typ': ident('int')}}, {'TypeStruct': {'pos': [0, 0], 'fields': []}},
+                                            {'TypeArray': {'pos': [0, 0], 'len': lit('Integer', '4'), 'typ': ident('int')}}])
+            elif k == 'pointer': t = {'TypePointer': {'pos': 0, 'typ': ident(self.tname())}}
+            elif k == 'paren': t = paren(ident(self.tname()))
+            else: t = {'Selector': {'pos': 0, 'x': ident(self.pick(PKGS)), 'sel': rawident('T')}}
+            if k in ('name', 'lit', 'qualified') and self.chance(0.35): t = {'Operation': {'pos': 0, 'op': 'Tiled', 'x': t, 'y': None}}
             terms.append(t)
+        self.cov('union-%d' % n, 'constraint')
         e = terms[0]
         for t in terms[1:]:
             e = {'Operation': {'pos': 0, 'op': 'Or', 'x': e, 'y': t}}
@@ -505,3 +514,58 @@ class Gen:
             k = r.choice(['Function', 'Function', 'Variable', 'Const', 'Type'])
             decls.append({'Function': self.func_decl(d)} if k == 'Function' else {k: self.decl_body(k, d)})
         return {'path': '<input>', 'line_info': [], 'docs': [], 'pkg_name': rawident(self.pick(['p', 'main', 'pkg'])), 'imports': imports, 'decl': decls, 'comments': []}
+
+
+# ---------------------------------------------------------------------------------------------
+# exhaustive enumerations of small derivations around the grammar's known ambiguities
+
+
+def enum_typeparam_decls():
+    """type declarations `type T[<params>] <type>` with every shape of first constraint: the brackets are a
+    type-parameter list or an array length depending on the constraint (Go spec, Type parameter declarations,
+    "parsing ambiguity")"""
+    import itertools
+    C = lambda n: ident(n)
+    firsts = {'C': C('C'), '*C': {'TypePointer': {'pos': 0, 'typ': C('C')}}, '(C)': paren(C('C')), '~C': {'Operation': {'pos': 0, 'op': 'Tiled', 'x': C('C'), 'y': None}},
+              '[]C': {'TypeSlice': {'pos': [0, 0], 'typ': C('C')}}, '[3]C': {'TypeArray': {'pos': [0, 0], 'len': lit('Integer', '3'), 'typ': C('C')}}, 'p.C': {'Selector': {'pos': 0, 'x': C('p'), 'sel': rawident('C')}},
+              'interface{}': {'TypeInterface': {'pos': 0, 'methods': fieldlist([])}}, 'map': {'TypeMap': {'pos': [0, 0], 'key': C('K'), 'val': C('V')}}, 'G[C]': {'Index': {'pos': [0, 0], 'left': C('G'), 'index': C('C')}},
+              '*p.C': {'TypePointer': {'pos': 0, 'typ': {'Selector': {'pos': 0, 'x': C('p'), 'sel': rawident('C')}}}}, 'chan C': {'TypeChannel': {'pos': [0, 0], 'dir': None, 'typ': C('C')}},
+              'func()': {'TypeFunction': {'pos': 0, 'typ_params': nofields(), 'params': fieldlist([]), 'result': nofields()}}}
+    more = {'D': C('D'), '~D': {'Operation': {'pos': 0, 'op': 'Tiled', 'x': C('D'), 'y': None}}, '*D': {'TypePointer': {'pos': 0, 'typ': C('D')}}, '[]D': {'TypeSlice': {'pos': [0, 0], 'typ': C('D')}}, '(D)': paren(C('D'))}
+    bodies = [ident('int'), {'TypeStruct': {'pos': [0, 0], 'fields': []}}, {'TypeSlice': {'pos': [0, 0], 'typ': ident('P')}}]
+    out = []
+    for fk, f in firsts.items():
+        for n in range(0, 3):
+            for extra in itertools.product(more.items(), repeat=n):
+                e = f
+                for _, t in extra:
+                    e = {'Operation': {'pos': 0, 'op': 'Or', 'x': e, 'y': t}}
+                for names in (['P'], ['P', 'Q']):
+                    for second in (False, True):
+                        fields = [field(names, e)] + ([field(['R'], ident('any'))] if second else [])
+                        body = bodies[(len(out)) % len(bodies)]
+                        spec = {'docs': [], 'alias': False, 'name': rawident('T'), 'params': fieldlist(fields), 'typ': body}
+                        tree = {'path': '<input>', 'line_info': [], 'docs': [], 'pkg_name': rawident('p'), 'imports': [],
+                                'decl': [{'Type': {'docs': [], 'pos0': 0, 'pos1': None, 'specs': [spec]}}], 'comments': []}
+                        out.append((f'typeparams:{fk}+{"|".join(k for k, _ in extra)}:{len(names)}names:{"2nd" if second else "single"}', tree))
+    return out
+
+
+def enum_array_decls():
+    """type declarations whose brackets are an array length (the other side of the same ambiguity)"""
+    N = ident('N')
+    lens = {'N': N, '3': lit('Integer', '3'), 'N*2': {'Operation': {'pos': 0, 'op': 'Star', 'x': N, 'y': lit('Integer', '2')}}, 'N*M': {'Operation': {'pos': 0, 'op': 'Star', 'x': N, 'y': ident('M')}},
+            'N+1': {'Operation': {'pos': 0, 'op': 'Add', 'x': N, 'y': lit('Integer', '1')}}, 'len(x)': {'Call': {'pos': [0, 0], 'args': [ident('x')], 'func': ident('len'), 'dots': None}},
+            'N(M)': {'Call': {'pos': [0, 0], 'args': [ident('M')], 'func': N, 'dots': None}}, 'p.N': {'Selector': {'pos': 0, 'x': ident('p'), 'sel': rawident('N')}}, '(N)': paren(N),
+            'N|M': {'Operation': {'pos': 0, 'op': 'Or', 'x': N, 'y': ident('M')}}, 'N*M|K': {'Operation': {'pos': 0, 'op': 'Or', 'x': {'Operation': {'pos': 0, 'op': 'Star', 'x': N, 'y': ident('M')}}, 'y': ident('K')}},
+            '1<<N': {'Operation': {'pos': 0, 'op': 'Shl', 'x': lit('Integer', '1'), 'y': N}}, 'N<<1': {'Operation': {'pos': 0, 'op': 'Shl', 'x': N, 'y': lit('Integer', '1')}}, '-N': {'Operation': {'pos': 0, 'op': 'Sub', 'x': N, 'y': None}},
+            'N.f': {'Selector': {'pos': 0, 'x': N, 'sel': rawident('f')}}, 'N&^M': {'Operation': {'pos': 0, 'op': 'AndNot', 'x': N, 'y': ident('M')}}}
+    elems = [ident('int'), {'TypePointer': {'pos': 0, 'typ': ident('T')}}, {'TypeSlice': {'pos': [0, 0], 'typ': ident('byte')}}, {'TypeArray': {'pos': [0, 0], 'len': lit('Integer', '2'), 'typ': ident('int')}}]
+    out = []
+    for lk, ln in lens.items():
+        for el in elems:
+            spec = {'docs': [], 'alias': False, 'name': rawident('A'), 'params': nofields(), 'typ': {'TypeArray': {'pos': [0, 0], 'len': ln, 'typ': el}}}
+            tree = {'path': '<input>', 'line_info': [], 'docs': [], 'pkg_name': rawident('p'), 'imports': [],
+                    'decl': [{'Type': {'docs': [], 'pos0': 0, 'pos1': None, 'specs': [spec]}}], 'comments': []}
+            out.append((f'arraydecl:{lk}', tree))
+    return out
